@@ -78,12 +78,15 @@ Proof.
                               | H : exists _, _ |- _ => destruct H
                               | H : _ /\ _ |- _ => destruct H
                               end; eauto 12 using client_ty_weaken, prov_ty_weaken.
+  split; auto. split; auto.
+  match goal with H : Forall _ (m_provs m) |- _ => eapply Forall_impl; [|exact H] end.
+  intros q Hq. eapply prov_ty_weaken; eauto.
 Qed.
 
 Lemma proc_typed_weaken Δ Δ' p : Δ ⊆ Δ' -> proc_typed D F teq Δ p -> proc_typed D F teq Δ' p.
 Proof.
-  intros Hs [n [s [rs [H1 [H2 H3]]]]]. exists n, s, rs. repeat split; auto.
-  - eapply prov_ty_weaken; eauto.
+  intros Hs [s [rs [H1 [H2 H3]]]]. exists s, rs. split; auto. split.
+  - eapply Forall_impl; [|exact H2]. intros n Hn. eapply prov_ty_weaken; eauto.
   - eapply typed_weaken; eauto.
 Qed.
 
@@ -247,6 +250,18 @@ Proof.
     destruct (String.eqb (ident y) x) eqn:E1; simpl.
     { apply String.eqb_eq in E1. rewrite E1 in Hk. rewrite insert_insert in Hk. rewrite E1. exact Hk. }
     apply String.eqb_neq in E1. apply IH; [apply insert_commute; auto|auto|set_solver].
+  - (* Split *) intros Γ' sh rs s x0 y from k T Hc Hbx Hby Hne Hs1 Hs2 Hk IH Γ -> Hsh Hrs; simpl.
+    rewrite (binder_eqb x0 old), (binder_eqb y old) by auto. rewrite Hx.
+    eapply T_Split; eauto.
+    destruct (String.eqb (ident x0) x) eqn:E1; simpl.
+    { apply String.eqb_eq in E1. rewrite E1 in Hk. rewrite insert_insert in Hk. rewrite E1. exact Hk. }
+    apply String.eqb_neq in E1.
+    destruct (String.eqb (ident y) x) eqn:E2; simpl.
+    { apply String.eqb_eq in E2. rewrite E2 in Hk.
+      rewrite (insert_commute _ (ident x0) x) in Hk by auto. rewrite insert_insert in Hk. rewrite E2. exact Hk. }
+    apply String.eqb_neq in E2.
+    apply IH; [|auto|set_solver].
+    rewrite (insert_commute _ (ident x0) x) by auto. rewrite (insert_commute _ (ident y) x) by auto. reflexivity.
   - (* Print *) intros; subst; simpl. eapply T_Print; eauto.
   - (* brs_p nil *) intros; simpl. constructor.
   - (* brs_p cons *) intros Γ' rs bs l pay k r A0 Hf Hb Hfr Hk IHk Hr IHr Γ -> Hrs; simpl.
@@ -406,6 +421,18 @@ Proof.
     eapply typed_rs; [|apply IH].
     + set_solver.
     + rewrite lookup_insert_ne; auto.
+  - (* Split *) intros Γ sh rs s x y0 from k T Hc Hbx Hby Hne Hs1 Hs2 Hk IH Hfr; simpl.
+    rewrite (binder_eqb x old), (binder_eqb y0 old) by auto. rewrite Hy.
+    destruct Hbx as [Hbx1 Hbx2]. destruct Hby as [Hby1 Hby2].
+    eapply T_Split; eauto using unshadow_ne; try (split; auto).
+    destruct (String.eqb (ident x) y) eqn:E1; simpl.
+    { apply String.eqb_eq in E1. rewrite unshadow_other by congruence. eapply typed_rs; [|exact Hk]. set_solver. }
+    destruct (String.eqb (ident y0) y) eqn:E2; simpl.
+    { apply String.eqb_eq in E2. rewrite unshadow_other by congruence. eapply typed_rs; [|exact Hk]. set_solver. }
+    apply String.eqb_neq in E1. apply String.eqb_neq in E2.
+    eapply typed_rs; [|apply IH].
+    + set_solver.
+    + rewrite !lookup_insert_ne; auto.
   - (* Print *) intros; simpl. eapply T_Print; eauto.
   - (* brs_p nil *) intros; simpl. constructor.
   - (* brs_p cons *) intros Γ rs bs l pay k r A0 Hf Hb Hfp Hk IHk Hr IHr Hfr; simpl.
@@ -525,6 +552,12 @@ Proof.
     destruct (String.eqb (ident x0) x) eqn:E1; simpl; auto. apply String.eqb_neq in E1.
     match goal with IH : _ -> _ -> _ -> subst old new k = k |- _ => apply IH end;
       [rewrite lookup_insert_ne; auto | auto | set_solver].
+  - (* Split *) f_equal.
+    destruct (String.eqb (ident x0) x) eqn:E1; simpl; auto.
+    destruct (String.eqb (ident y) x) eqn:E2; simpl; auto.
+    apply String.eqb_neq in E1. apply String.eqb_neq in E2.
+    match goal with IH : _ -> _ -> _ -> subst old new k = k |- _ => apply IH end;
+      [rewrite !lookup_insert_ne; auto | auto | set_solver].
   - (* Print *) f_equal. eauto.
   - reflexivity.
   - (* brs_p cons *) f_equal; [|eauto].
@@ -541,5 +574,79 @@ Lemma subst_not_free Δ Γ sh rs s f old new :
   chan old = None -> Γ !! ident old = None -> sh <> Some (ident old) -> ident old ∉ rs ->
   typed Δ Γ sh rs s f -> subst old new f = f.
 Proof. intros Ho Hfr Hsh Hrs H. eapply (subst_id_mut Δ old new (ident old)); eauto. Qed.
+
+(* ------------------------------------------------------------------ a channel for a channel (the copies made by DUP) *)
+Lemma cid_eqb_eq a b : cid_eqb a b = true <-> a = b.
+Proof. unfold cid_eqb. destruct (list_eq_dec Nat.eq_dec a b); split; auto; discriminate. Qed.
+
+Lemma name_subst_old_chan old new n d : chan old = Some d ->
+  name_subst old new n =
+    if match chan n with Some c => cid_eqb c d | None => false end
+    then mkName (if String.eqb (ident new) "" then ident n else ident new) (is_self new) (pol n) (nty n) (chan new)
+    else n.
+Proof.
+  intros Ho. unfold name_subst, initialized. rewrite Ho. destruct (chan n) as [c|]; simpl; auto.
+Qed.
+
+Lemma name_equal_binder_chan x old d : chan x = None -> chan old = Some d -> name_equal x old = false.
+Proof. intros Hx Ho. unfold name_equal, initialized. rewrite Hx, Ho. simpl. apply andb_false_r. Qed.
+
+(* the new channel has the type of the old one *)
+Definition same_type (Δ : gmap cid sty) (d e : cid) : Prop :=
+  forall T, Δ !! d = Some T -> exists T', Δ !! e = Some T' /\ teq T' T.
+
+Lemma client_ty_subst_chan Δ Γ sh old new d e n t :
+  chan old = Some d -> is_self new = false -> chan new = Some e -> same_type Δ d e ->
+  client_ty Δ Γ sh n t -> client_ty Δ Γ sh (name_subst old new n) t.
+Proof.
+  intros Ho Hn He Hsame [H1 [Ha H2]]. rewrite (name_subst_old_chan old new n d Ho).
+  destruct (chan n) as [c|] eqn:Ec; [|split; auto; split; auto; rewrite Ec; auto].
+  destruct (cid_eqb c d) eqn:E; [|split; auto; split; auto; rewrite Ec; auto].
+  apply cid_eqb_eq in E. subst c. destruct H2 as [t' [H2 H3]].
+  destruct (Hsame t' H2) as [T' [HT' Hteq']].
+  split; auto. split; [exact Ha|]. simpl. rewrite He. exists T'. split; eauto.
+Qed.
+
+Lemma prov_name_subst_chan sh rs old new d n : chan old = Some d -> prov_name sh rs n -> name_subst old new n = n.
+Proof. intros Ho [H1 _]. rewrite (name_subst_old_chan old new n d Ho). rewrite H1. reflexivity. Qed.
+
+Lemma args_ok_subst_chan Δ Γ sh old new d e args ps :
+  chan old = Some d -> is_self new = false -> chan new = Some e -> same_type Δ d e ->
+  args_ok Δ Γ sh args ps -> args_ok Δ Γ sh (map (name_subst old new) args) ps.
+Proof.
+  intros Ho Hn He Hsame H. induction H as [|a p args ps [t [H1 H2]] H IH]; simpl; constructor; auto.
+  exists t. split; auto. eapply client_ty_subst_chan; eauto.
+Qed.
+
+Lemma typed_subst_chan_mut Δ old new d e :
+  chan old = Some d -> is_self new = false -> chan new = Some e -> same_type Δ d e ->
+  (forall Γ sh rs s f, typed Δ Γ sh rs s f -> typed Δ Γ sh rs s (subst old new f)) /\
+  (forall Γ rs bs b, typed_brs_p Δ Γ rs bs b -> typed_brs_p Δ Γ rs bs (subst_brs old new b)) /\
+  (forall Γ sh rs s bs b, typed_brs_c Δ Γ sh rs s bs b -> typed_brs_c Δ Γ sh rs s bs (subst_brs old new b)).
+Proof.
+  intros Ho Hn He Hsame.
+  assert (Hcl : forall Γ sh n t, client_ty Δ Γ sh n t -> client_ty Δ Γ sh (name_subst old new n) t)
+    by (intros; eapply client_ty_subst_chan; eauto).
+  assert (Hpr : forall sh rs n, prov_name sh rs n -> prov_name sh rs (name_subst old new n))
+    by (intros sh rs n Hp; rewrite (prov_name_subst_chan sh rs old new d n) by auto; exact Hp).
+  assert (Hbe : forall x, binder x -> name_equal x old = false)
+    by (intros x [Hx _]; eapply name_equal_binder_chan; eauto).
+  apply typed_mutind; intros; simpl;
+    repeat match goal with
+           | H : binder ?b |- context [name_equal ?b old] => rewrite (Hbe b H)
+           end; simpl;
+    try (econstructor; eauto using covers_subst; fail).
+  (* Call *)
+  eapply T_Call; eauto; rewrite ?map_length; eauto.
+  match goal with H : _ \/ _ |- _ => destruct H as [[Hl Ha]|[a0 [rest [-> [Hl [Hp Ha]]]]]] end.
+  - left. split; auto. eapply args_ok_subst_chan; eauto.
+  - right. exists (name_subst old new a0), (map (name_subst old new) rest). simpl.
+    rewrite map_length. split; [auto|]. split; [auto|]. split; [auto|]. eapply args_ok_subst_chan; eauto.
+Qed.
+
+Lemma typed_subst_chan Δ Γ sh rs s f old new d e :
+  chan old = Some d -> is_self new = false -> chan new = Some e -> same_type Δ d e ->
+  typed Δ Γ sh rs s f -> typed Δ Γ sh rs s (subst old new f).
+Proof. intros Ho Hn He Hs H. eapply (typed_subst_chan_mut Δ old new d e); eauto. Qed.
 
 End RtSubst.
